@@ -1,6 +1,8 @@
 package main
 
 import (
+	"fmt"
+	"go/constant"
 	"go/token"
 	"strings"
 
@@ -86,5 +88,121 @@ func ruleNONEMPTYID(c *Ctx) {
 	}
 	if n < 2 {
 		c.Lost(rule, "util/ident.Produce:return", "only %d returns found in Produce", n)
+	}
+	// The fallback is skipped for name == "" (the empty input, which no grammar can spell). The
+	// name tested there is the parameter or a sub-slice of it (quotes and escape prefix removed):
+	// every sub-slice that reaches the test must be non-empty by its governing length condition,
+	// or '' / "" would lose its quotes and take the empty-input exit.
+	key := "util/ident.Produce:fallback-name"
+	var tested ssa.Value
+	for _, b := range f.Blocks {
+		for _, ins := range b.Instrs {
+			if bo, ok := ins.(*ssa.BinOp); ok && (bo.Op == token.NEQ || bo.Op == token.EQL) {
+				if k, isK := bo.Y.(*ssa.Const); isK && k.Value != nil && k.Value.ExactString() == `""` {
+					for _, r := range *bo.Referrers() {
+						if _, isIf := r.(*ssa.If); isIf {
+							// the fallback test sits behind buf.Len() == 0
+							for _, g := range flattenConds(governing(bo.Block())) {
+								if gb, ok := g.V.(*ssa.BinOp); ok && (strings.Contains(vpath(gb.X), "Builder.Len(") || strings.Contains(vpath(gb.Y), "Builder.Len(")) {
+									tested = bo.X
+								}
+							}
+						}
+					}
+				}
+			}
+		}
+	}
+	if tested == nil {
+		c.Trivial(rule, key, f.Pos(), "the fallback is not conditional on the name")
+		return
+	}
+	lenOf := func(v ssa.Value, s ssa.Value) bool {
+		call, ok := stripConv(v).(*ssa.Call)
+		if !ok {
+			return false
+		}
+		bi, ok := call.Call.Value.(*ssa.Builtin)
+		return ok && bi.Name() == "len" && call.Call.Args[0] == s
+	}
+	constOf := func(v ssa.Value) (int64, bool) {
+		k, ok := v.(*ssa.Const)
+		if !ok || k.Value == nil || k.Value.Kind() != constant.Int {
+			return 0, false
+		}
+		return k.Int64(), true
+	}
+	bad, undec := "", ""
+	slices := 0
+	seen := map[ssa.Value]bool{}
+	var walk func(v ssa.Value, d int)
+	walk = func(v ssa.Value, d int) {
+		if seen[v] || d > 8 {
+			return
+		}
+		seen[v] = true
+		switch x := v.(type) {
+		case *ssa.Phi:
+			for _, e := range x.Edges {
+				walk(e, d+1)
+			}
+		case *ssa.Parameter:
+		case *ssa.Slice:
+			slices++
+			walk(x.X, d+1)
+			// characters removed: Low + (len(X) - High)
+			removed := int64(0)
+			if x.Low != nil {
+				lo, ok := constOf(x.Low)
+				if !ok {
+					undec = "slice with a computed lower bound"
+					return
+				}
+				removed += lo
+			}
+			if x.High != nil {
+				hb, ok := x.High.(*ssa.BinOp)
+				if !ok || hb.Op != token.SUB || !lenOf(hb.X, x.X) {
+					undec = "slice with an upper bound that is not len - constant"
+					return
+				}
+				k, ok := constOf(hb.Y)
+				if !ok {
+					undec = "slice with a computed upper bound"
+					return
+				}
+				removed += k
+			}
+			// governing: len(X) > removed, len(X) >= removed+1, or len(X) == k with k > removed
+			proved := false
+			for _, g := range flattenConds(governing(x.Block())) {
+				l, op, r, ok := cmpNormV(g.V, g.Pol)
+				if !ok {
+					continue
+				}
+				if k, isK := constOf(l); isK && lenOf(r, x.X) {
+					if op == "<" && k >= removed || op == "<=" && k > removed || op == "==" && k > removed {
+						proved = true
+					}
+				}
+				if k, isK := constOf(r); isK && lenOf(l, x.X) && op == "==" && k > removed {
+					proved = true
+				}
+			}
+			if !proved {
+				bad = fmt.Sprintf("%s removes %d characters without a governing condition that leaves at least one", vpath(x), removed)
+			}
+		default:
+			undec = "name derived from " + vpath(v)
+		}
+	}
+	walk(tested, 0)
+	switch {
+	case bad != "":
+		c.Bad(rule, key, f.Pos(), "the name tested by the fallback `name != \"\"` can be an empty sub-slice of the input (%s): the quoted terminal '' loses its quotes, skips the \"empty\" fallback and gets the identifier \"\"", bad)
+	case undec != "":
+		c.Undec(rule, key, f.Pos(), "%s", undec)
+	default:
+		c.Ok(rule, key, f.Pos(), "every sub-slice of the input that reaches the fallback test is non-empty by its governing length condition (%d slices)", slices)
 	}
 }
